@@ -341,3 +341,126 @@ def range_points():
             pts.update({v - 1, v, v + 1})
     pts.update({0, 1, -1, 200, 100, 40000})
     return sorted(pts)
+
+
+# ---------------------------------------------------------------- dispatch by path summaries
+_ISI = re.compile(r'^isinstance\(ARG0, (.+)\)$')
+
+
+def dispatch_summary(f, cls):
+    """The isinstance dispatch of a generator method f(self, type_, ...), read off its path summaries (so that an if/elif chain,
+    several consecutive chains, early returns or tuple tests all look the same):
+    [(classes tested true on the path, is_user_type true?, outcome kind, returned expression or None, path)] or None (too many paths)."""
+    from . import sem
+    ps = sem.paths(f, positional=True, max_paths=4000)
+    if ps is None:
+        return None
+    out = []
+    for p in ps:
+        names, user = set(), False
+        for c in p.conds:
+            m = _ISI.match(c[0])
+            if m and c[1]:
+                for part in m.group(1).strip('()').split(','):
+                    part = part.strip()
+                    if part:
+                        names.add(part.split('.')[-1])
+            if c[1] and re.match(r'^(?:\w+\.)?is_user_type\(ARG0\)$', c[0]):
+                user = True
+        val = p.outcome[3] if p.outcome[0] == 'return' and len(p.outcome) > 3 else None
+        out.append((frozenset(names), user, p.outcome[0], val, p))
+    return out
+
+
+def value_is_empty(v):
+    """`[]`, `([], [])`: an evidently empty translation"""
+    if isinstance(v, ast.List) and not v.elts:
+        return True
+    if isinstance(v, ast.Tuple) and v.elts and all(isinstance(e, ast.List) and not e.elts for e in v.elts):
+        return True
+    return False
+
+
+# ---------------------------------------------------------------- path-based template pairing
+def returns_pair(f):
+    """does every return of f give a tuple (encode lines, decode lines, ...)?  A helper that returns one list is one-sided."""
+    rets = [n for n in walk_no_nested(f) if isinstance(n, ast.Return) and n.value is not None]
+    if not rets:
+        return False
+    for r in rets:
+        v = r.value
+        if isinstance(v, ast.Tuple) and len(v.elts) >= 2:
+            continue
+        if isinstance(v, ast.Call):
+            continue      # forwards another helper's result
+        return False
+    return any(isinstance(r.value, ast.Tuple) for r in rets) or all(isinstance(r.value, ast.Call) for r in rets)
+
+
+def side_constants(stmt, resolve):
+    """[(Constant, side)] of one statement; a call of a one-sided helper (resolve(call) -> FunctionDef whose returns are single
+    lists) contributes the helper's own templates to the side its result is assigned to."""
+    out = []
+    seen = set()
+
+    def add(node, side):
+        for n in ast.walk(node):
+            if isinstance(n, ast.Constant) and isinstance(n.value, str) and id(n) not in seen:
+                seen.add(id(n))
+                out.append((n, side))
+            elif isinstance(n, ast.Call) and resolve is not None:
+                g = resolve(n)
+                if g is not None and not returns_pair(g) and id(g) not in seen:
+                    seen.add(id(g))
+                    for c in strings_in(g):
+                        out.append((c, side))
+    for n in [stmt] + [x for x in ast.walk(stmt) if x is not stmt and not isinstance(x, ast.stmt)]:
+        if isinstance(n, (ast.Assign, ast.AugAssign)):
+            tgs = n.targets if isinstance(n, ast.Assign) else [n.target]
+            for tg in tgs:
+                if isinstance(tg, ast.Name) and side_of_target(tg.id):
+                    add(n.value, side_of_target(tg.id))
+                elif isinstance(tg, ast.Tuple) and isinstance(n.value, ast.Tuple) and len(tg.elts) == len(n.value.elts):
+                    for t, v in zip(tg.elts, n.value.elts):
+                        if isinstance(t, ast.Name) and side_of_target(t.id):
+                            add(v, side_of_target(t.id))
+        elif isinstance(n, ast.Call) and isinstance(n.func, ast.Attribute) and n.func.attr in ('append', 'extend', 'insert') and isinstance(n.func.value, ast.Name):
+            sd = side_of_target(n.func.value.id)
+            if sd:
+                for a in n.args:
+                    add(a, sd)
+        elif isinstance(n, ast.Return) and isinstance(n.value, ast.Tuple) and len(n.value.elts) >= 2:
+            add(n.value.elts[0], 'enc')
+            add(n.value.elts[1], 'dec')
+    return out
+
+
+def path_pairing(f, resolve):
+    """Template pairing along every path of f: -> None (too many paths) | [] (paired on every path) | [(conditions, problem)]"""
+    from . import sem
+    ps = sem.paths(f, max_paths=3000)
+    if ps is None:
+        return None
+    probs = []
+    seen_sets = set()
+    for p in ps:
+        if p.outcome[0] == 'raise':
+            continue
+        stmts = []
+        ids = set()
+        for ev in p.events:
+            if ev[0] in ('stmt', 'in-loop:stmt') and id(ev[2]) not in ids:
+                ids.add(id(ev[2]))
+                stmts.append(ev[2])
+        key = frozenset(ids)
+        if key in seen_sets:
+            continue
+        seen_sets.add(key)
+        consts = []
+        for s in stmts:
+            consts.extend(side_constants(s, resolve))
+        kinds = helper_kinds(consts)
+        prob = pairing_problem(kinds)
+        if prob:
+            probs.append((' && '.join(('' if c[1] else 'not ') + c[0] for c in p.conds) or 'always', prob))
+    return probs
